@@ -17,16 +17,20 @@ import inspect
 import re
 import types
 
-from engine.api import QUICK, REPO, cond, pick, task
+from engine.api import QUICK, REPO, HarnessModelError, cond, pick, task
 
 from vgi_rpc import metadata as md
 from vgi_rpc.rpc import _server as srv
-from vgi_rpc.rpc._common import ProtocolVersionError
 
 PROPERTY = "C09"
 ENCODED = [md.parse_version, srv.RpcServer._check_protocol_version]
 BOUNDS = "rx: all strings over code points 0..0x2FFFF (unbounded length); gate: unbounded non-negative int triples; real gate: client strings len<=%d" % pick(5, 7)
-OUTSIDE = "HTTP 400 mapping end-to-end; Arrow transport of the metadata value; code points above 0x2FFFF"
+OUTSIDE = (
+    "the wiring of the gate into the three dispatch sites (serve_one, HTTP unary, HTTP stream init): that __describe__ is exempt, "
+    "that a service declaring no version never calls the gate, and socket/HTTP parity incl. the HTTP 400 mapping are NOT decided "
+    "here (C04 exercises refusal on the socket path for a declared service only); Arrow transport of the metadata value; "
+    "code points above 0x2FFFF; the wording of the refusal beyond naming both versions and a recognisable side to upgrade"
+)
 ASSUMPTIONS = [
     "parse_version stub in (b) = 'returns any triple of non-negative ints or raises ValueError' — justified by (a)+(c)",
 ]
@@ -100,6 +104,23 @@ def grammar_equals_canonical_semver(budget: float, replay=None) -> dict:
     return res
 
 
+def _noncanonical_class(s: str) -> str:
+    """Why a string is not canonical MAJOR.MINOR.PATCH (for signatures only; first reason that applies)."""
+    if re.fullmatch(CANONICAL, s, re.ASCII):
+        return "canonical"
+    if s.endswith("\n") and re.fullmatch(CANONICAL, s[:-1], re.ASCII):
+        return "trailing-newline"
+    if not s.isascii() and re.fullmatch(r"\d+\.\d+\.\d+", s):
+        return "unicode-digit"
+    if s != s.strip():
+        return "whitespace"
+    if re.fullmatch(r"[0-9]+\.[0-9]+\.[0-9]+", s, re.ASCII):
+        return "leading-zero"
+    if re.match(CANONICAL + r"[-+]", s, re.ASCII):
+        return "prerelease-or-build"
+    return "other"
+
+
 def _replay_grammar(s: str, pattern, mode: str) -> dict:
     """Real replay: the public parse_version on the witness, against the canonical grammar."""
     canonical = re.fullmatch(CANONICAL, s, re.ASCII) is not None
@@ -112,7 +133,7 @@ def _replay_grammar(s: str, pattern, mode: str) -> dict:
         return {
             "verdict": "VIOLATION",
             "detail": f"parse_version({s!r}) {'accepted -> ' + repr(got) if accepted else 'rejected'} but the string is {'canonical' if canonical else 'not canonical MAJOR.MINOR.PATCH'}",
-            "signature": "C09:grammar:" + ("accepts-noncanonical" if accepted else "rejects-canonical"),
+            "signature": "C09:grammar:" + ("accepts-noncanonical:" + _noncanonical_class(s) if accepted else "rejects-canonical"),
             "replayed": True,
         }
     return {"verdict": "INCONCLUSIVE", "detail": f"solver witness {s!r} did not reproduce on parse_version"}
@@ -122,10 +143,13 @@ def _replay_grammar(s: str, pattern, mode: str) -> dict:
 # (b) the gate with parse_version as a contract stub
 # ---------------------------------------------------------------------------
 
-_HOLD: dict = {"triple": (0, 0, 0), "ok": True}
+_HOLD: dict = {"triple": (0, 0, 0), "ok": True, "calls": 0}
 
 
-def _stub_parse_version(value: str) -> tuple[int, int, int]:
+def _stub_parse_version(value: str, *a: object, **k: object) -> tuple[int, int, int]:
+    _HOLD["calls"] += 1
+    if value != "C.C.C":
+        raise HarnessModelError(f"parse_version stub asked about {value!r}, not the client's value")
     if not _HOLD["ok"]:
         raise ValueError("malformed")
     return _HOLD["triple"]
@@ -143,9 +167,14 @@ _gate_stubbed = types.FunctionType(
 
 
 class _Srv:
+    """Stand-in for RpcServer: only the two attributes the gate documents it reads."""
+
     def __init__(self, parts: tuple[int, int, int], text: str) -> None:
         self._protocol_version_parts = parts
         self._protocol_version = text
+
+    def __getattr__(self, name: str) -> object:
+        raise HarnessModelError(f"_Srv fake has no attribute {name!r} (the gate reads more of the server than modelled)")
 
 
 def _expect(server: tuple[int, int, int], parsed_ok: bool, client: tuple[int, int, int]) -> str:
@@ -158,28 +187,101 @@ def _expect(server: tuple[int, int, int], parsed_ok: bool, client: tuple[int, in
     return "server_old"
 
 
-def _classify(exc: BaseException | None) -> str:
-    if exc is None:
-        return "ok"
-    if not isinstance(exc, ProtocolVersionError):
-        return "other:" + type(exc).__name__
-    if getattr(exc, "error_kind", None) != "protocol_version_mismatch":
-        return "wrong_kind"
+def _is_refusal(exc: BaseException) -> bool:
+    """A protocol_version_mismatch refusal (WIRE_PROTOCOL §13: ProtocolVersionError / that error_kind)."""
+    return getattr(exc, "error_kind", None) == "protocol_version_mismatch"
+
+
+_SIDE_C = re.compile(r"client|extension")
+_SIDE_S = re.compile(r"server|worker")
+_OLD = re.compile(r"too old|older|outdated|out of date|out-of-date")
+_CLAUSE = re.compile(r"[.;:\n]")
+
+
+def _direction(text: str) -> set[str]:
+    """Which side the message tells the reader to upgrade, read loosely (wording is not part of C09).
+
+    Votes come from "upgrad… <side>" and "<side> … too old/older/outdated" inside one clause. An
+    empty or two-sided result means "not recognised" (harness model limit), never a violation.
+    """
+    t = text.lower()
+    votes: set[str] = set()
+    for m in re.finditer(r"upgrad\w*", t):
+        if re.search(r"\bbe\s+$", t[: m.start()]):  # passive: "<side> must be upgraded"
+            head = _CLAUSE.split(t[max(0, m.start() - 40) : m.start()])[-1]
+            cs = [x.start() for x in _SIDE_C.finditer(head)]
+            ss = [x.start() for x in _SIDE_S.finditer(head)]
+            if cs and (not ss or cs[-1] > ss[-1]):
+                votes.add("client_old")
+            elif ss:
+                votes.add("server_old")
+            continue
+        tail = _CLAUSE.split(t[m.end() : m.end() + 60])[0]
+        c, s = _SIDE_C.search(tail), _SIDE_S.search(tail)
+        if c is not None and (s is None or c.start() < s.start()):
+            votes.add("client_old")
+        elif s is not None:
+            votes.add("server_old")
+    for m in _OLD.finditer(t):
+        head = _CLAUSE.split(t[max(0, m.start() - 40) : m.start()])[-1]
+        c = [x.start() for x in _SIDE_C.finditer(head)]
+        s = [x.start() for x in _SIDE_S.finditer(head)]
+        if c and (not s or c[-1] > s[-1]):
+            votes.add("client_old")
+        elif s:
+            votes.add("server_old")
+    return votes
+
+
+def _judge_refusal(exc: BaseException, want: str, client_text: str, server_text: str) -> str | None:
+    """Property-level judgement of a refusal; returns a problem description, None, or raises HarnessModelError."""
+    if not _is_refusal(exc):
+        return f"refused with {type(exc).__name__} (error_kind={getattr(exc, 'error_kind', None)!r}), not a protocol_version_mismatch error"
     text = str(exc)
-    if "client is too old" in text and "server is too old" not in text:
-        return "client_old"
-    if "server is too old" in text and "client is too old" not in text:
-        return "server_old"
-    if "malformed" in text:
-        return "malformed"
-    if "not declared" in text:
-        return "absent"
-    if "undecodable" in text:
-        return "undecodable"
-    return "unknown_text"
+    if server_text not in text:
+        return "the refusal does not name the server's version"
+    if want != "absent" and client_text not in text:
+        return "the refusal does not name the client's version"
+    if want in ("client_old", "server_old"):
+        votes = _direction(text)
+        if votes == {want}:
+            return None
+        if len(votes) == 1:
+            return f"the refusal tells the wrong side to upgrade ({sorted(votes)[0]} where {want} holds)"
+        raise HarnessModelError("direction wording of the refusal not recognised by the harness: " + text[-160:])
+    return None
 
 
-@cond(q=60, t=180, stubs=["parse_version := any non-negative int triple | ValueError"], encoded=[srv.RpcServer._check_protocol_version], bound="unbounded ints >= 0")
+def _replay_decision_table(args: dict) -> str | None:
+    """Un-stubbed gate + real parse_version on the rendered versions, judged against the property text."""
+    server = (args["sM"], args["sm"], args["sp"])
+    client = (args["cM"], args["cm"], args["cp"])
+    server_text = _render(server)
+    # parsed_ok=False region: a version the property itself names as malformed (prerelease suffix)
+    client_text = _render(client) + ("" if args["parsed_ok"] else "-rc1")
+    want = _expect(server, args["parsed_ok"], client)
+    exc: BaseException | None = None
+    try:
+        srv.RpcServer._check_protocol_version(_Srv(server, server_text), client_text.encode())  # type: ignore[arg-type]
+    except Exception as e:  # noqa: BLE001
+        exc = e
+    if want == "ok":
+        return None if exc is None else f"client {client_text} refused by a server declaring {server_text} ({type(exc).__name__})"
+    if exc is None:
+        return f"client {client_text} admitted by a server declaring {server_text}"
+    why = _judge_refusal(exc, want, client_text, server_text)
+    return None if why is None else f"client {client_text} vs server {server_text}: {why}"
+
+
+def _sig_decision_table(args: dict, conc: object) -> str:
+    want = _expect((args["sM"], args["sm"], args["sp"]), args["parsed_ok"], (args["cM"], args["cm"], args["cp"]))
+    why = _replay_decision_table(args) or ""
+    what = "admits" if " admitted by " in why else "refuses" if " refused by " in why else "bad-refusal"
+    return f"C09:gate:table:{what}:{want}"
+
+
+@cond(q=60, t=180, stubs=["parse_version := any non-negative int triple | ValueError"], encoded=[srv.RpcServer._check_protocol_version], bound="unbounded ints >= 0",
+      replay=_replay_decision_table, signature=_sig_decision_table)
 def gate_decision_table(sM: int, sm: int, sp: int, cM: int, cm: int, cp: int, parsed_ok: bool) -> bool:
     """
     pre: sM >= 0 and sm >= 0 and sp >= 0 and cM >= 0 and cm >= 0 and cp >= 0
@@ -187,26 +289,30 @@ def gate_decision_table(sM: int, sm: int, sp: int, cM: int, cm: int, cp: int, pa
     """
     _HOLD["triple"] = (cM, cm, cp)
     _HOLD["ok"] = parsed_ok
+    _HOLD["calls"] = 0
     server_text = "S.S.S"
     fake = _Srv((sM, sm, sp), server_text)
     exc: BaseException | None = None
     try:
         _gate_stubbed(fake, b"C.C.C")
+    except HarnessModelError:
+        raise
     except Exception as e:  # noqa: BLE001
         exc = e
-    got = _classify(exc)
+    if _HOLD["calls"] == 0:
+        # the gate decided about a present, decodable value without the by-name parser: the stub
+        # injection no longer models it (parser reached another way) -> not a verdict on the code
+        raise HarnessModelError("the gate did not consult parse_version through its module global")
     want = _expect((sM, sm, sp), parsed_ok, (cM, cm, cp))
-    if got != want:
+    if want == "ok":
+        return exc is None
+    if exc is None:
         return False
-    if exc is not None:
-        text = str(exc)
-        # names both versions
-        if "C.C.C" not in text or "S.S.S" not in text:
-            return False
-    return True
+    return _judge_refusal(exc, want, "C.C.C", "S.S.S") is None
 
 
-@cond(q=40, t=120, encoded=[srv.RpcServer._check_protocol_version], bound="absent / any 0..2 bytes")
+@cond(q=40, t=120, encoded=[srv.RpcServer._check_protocol_version], bound="absent / any 0..2 bytes",
+      signature=lambda args, conc: "C09:gate:absent-or-short:" + ("absent" if not args["present"] else "bytes"))
 def gate_absent_or_undecodable(present: bool, raw: bytes) -> bool:
     """
     pre: len(raw) <= 2
@@ -215,10 +321,10 @@ def gate_absent_or_undecodable(present: bool, raw: bytes) -> bool:
     fake = _Srv((1, 2, 3), "1.2.3")
     try:
         srv.RpcServer._check_protocol_version(fake, raw if present else None)  # type: ignore[arg-type]
-    except ProtocolVersionError as e:
-        return getattr(e, "error_kind", None) == "protocol_version_mismatch" and "1.2.3" in str(e)
-    except Exception:  # noqa: BLE001
-        return False
+    except HarnessModelError:
+        raise
+    except Exception as e:  # noqa: BLE001
+        return _is_refusal(e) and "1.2.3" in str(e)
     # no 0..2 byte value is a canonical version (shortest is 5 chars)
     return False
 
@@ -230,23 +336,36 @@ def gate_absent_or_undecodable(present: bool, raw: bytes) -> bool:
 _N = pick(60, 999)
 
 
-@cond(q=60, t=300, encoded=[md.parse_version], bound="components 0..%d" % _N)
+@cond(q=60, t=300, encoded=[md.parse_version], bound="components 0..%d" % _N, signature=lambda args, conc: "C09:parse:canonical-value-or-rejection")
 def parse_version_value_mapping(a: int, b: int, c: int) -> bool:
     """
     pre: 0 <= a <= _N and 0 <= b <= _N and 0 <= c <= _N
     post: _
     """
     try:
-        return md.parse_version(str(a) + "." + str(b) + "." + str(c)) == (a, b, c)
+        got = md.parse_version(str(a) + "." + str(b) + "." + str(c))
     except Exception:  # noqa: BLE001
         return False
+    return _triple(got) == (a, b, c)
 
 
-def _render(t: tuple[int, int, int]) -> str:
-    return str(t[0]) + "." + str(t[1]) + "." + str(t[2])
+def _triple(v: object) -> tuple[int, int, int]:
+    """(major, minor, patch) of a parse_version result whatever its container (tuple today)."""
+    if isinstance(v, (tuple, list)) and len(v) == 3:
+        return (v[0], v[1], v[2])
+    try:
+        return (v.major, v.minor, v.patch)  # type: ignore[attr-defined]
+    except AttributeError:
+        raise HarnessModelError(f"parse_version result of type {type(v).__name__} is not understood by the harness") from None
 
 
-@cond(q=60, t=120, encoded=[md.parse_version], bound="x,y any strings len<=1 around two canonical cores")
+def _render(t: object) -> str:
+    M, m, p = _triple(t)
+    return str(M) + "." + str(m) + "." + str(p)
+
+
+@cond(q=60, t=120, encoded=[md.parse_version], bound="x,y any strings len<=1 around two canonical cores",
+      signature=lambda args, conc: "C09:parse:accepts-noncanonical:" + _noncanonical_class(args["x"] + ("1.2.3" if args["core"] else "10.0.2") + args["y"]))
 def parse_version_no_decoration(x: str, y: str, core: bool) -> bool:
     """
     pre: len(x) <= 1 and len(y) <= 1
@@ -263,7 +382,8 @@ def parse_version_no_decoration(x: str, y: str, core: bool) -> bool:
     return s == _render(t)
 
 
-@cond(q=60, t=600, tiers=("thorough",), encoded=[md.parse_version], bound="all strings len<=5")
+@cond(q=60, t=600, tiers=("thorough",), encoded=[md.parse_version], bound="all strings len<=5",
+      signature=lambda args, conc: "C09:parse:accepts-noncanonical:" + _noncanonical_class(args["s"]))
 def parse_version_short_strings(s: str) -> bool:
     """
     pre: len(s) <= 5
@@ -287,15 +407,31 @@ def _replay_real_gate(args: dict) -> str | None:
     try:
         srv.RpcServer._check_protocol_version(fake, s.encode())  # type: ignore[arg-type]
         passed = True
-    except ProtocolVersionError:
+    except HarnessModelError:
+        raise
+    except Exception as e:  # noqa: BLE001
+        if not _is_refusal(e):
+            return f"client version {s!r}: the gate raised {type(e).__name__} instead of a protocol_version_mismatch refusal"
         passed = False
     if passed != should_pass:
         return f"client version {s!r} {'admitted' if passed else 'refused'} by a server declaring 1.2.0"
     return None
 
 
+def _sig_real_gate(abc: dict) -> str:
+    """Signature of a real-gate disagreement: direction + class of the witness string."""
+    s = abc["a"] + "." + abc["b"] + "." + abc["c"]
+    why = _replay_real_gate(abc) or ""
+    if " admitted by " in why:
+        cls = _noncanonical_class(s)
+        return "C09:gate:admits-" + ("mismatch" if cls == "canonical" else "noncanonical:" + cls)
+    if " refused by " in why:
+        return "C09:gate:refuses-matching-canonical"
+    return "C09:gate:crashes"
+
+
 @cond(q=90, t=400, encoded=[srv.RpcServer._check_protocol_version, md.parse_version], bound="client = a.b.c with a,b,c any strings len<=%d, server 1.2.0" % pick(1, 2),
-      replay=_replay_real_gate, signature=lambda args, conc: "C09:gate:decision-differs")
+      replay=_replay_real_gate, signature=lambda args, conc: _sig_real_gate(args))
 def real_gate_templated(a: str, b: str, c: str) -> bool:
     """
     pre: len(a) <= _L and len(b) <= _L and len(c) <= _L
@@ -306,12 +442,12 @@ def real_gate_templated(a: str, b: str, c: str) -> bool:
     try:
         srv.RpcServer._check_protocol_version(fake, client.encode())  # type: ignore[arg-type]
         passed = True
-    except ProtocolVersionError as e:
-        passed = False
-        if getattr(e, "error_kind", None) != "protocol_version_mismatch":
+    except HarnessModelError:
+        raise
+    except Exception as e:  # noqa: BLE001
+        if not _is_refusal(e):
             return False
-    except Exception:  # noqa: BLE001
-        return False
+        passed = False
     digits = "0123456789"
     ok_c = len(c) >= 1 and all(ch in digits for ch in c) and (c == "0" or c[0] != "0")
     want = a == "1" and b == "2" and ok_c
@@ -327,14 +463,18 @@ _L = pick(1, 2)
 _L1 = pick(3, 4)
 
 
-def _replay_one_component(args: dict) -> str | None:
+def _one_component(args: dict) -> dict:
     parts = ["1", "2", "0"]
     parts[args["which"]] = args["x"]
-    return _replay_real_gate({"a": parts[0], "b": parts[1], "c": parts[2]})
+    return {"a": parts[0], "b": parts[1], "c": parts[2]}
+
+
+def _replay_one_component(args: dict) -> str | None:
+    return _replay_real_gate(_one_component(args))
 
 
 @cond(q=90, t=600, encoded=[srv.RpcServer._check_protocol_version, md.parse_version], bound="client = server's 1.2.0 with ONE component replaced by any ASCII string (patch len<=%d, major/minor len<=%d)" % (_L1, _L1 - 1),
-      replay=_replay_one_component, signature=lambda args, conc: "C09:gate:decision-differs")
+      replay=_replay_one_component, signature=lambda args, conc: _sig_real_gate(_one_component(args)))
 def real_gate_one_free_component(which: int, x: str) -> bool:
     """
     pre: 0 <= which <= 2 and len(x) <= (_L1 if which == 2 else _L1 - 1) and x.isascii()
@@ -352,10 +492,12 @@ def real_gate_one_free_component(which: int, x: str) -> bool:
     try:
         srv.RpcServer._check_protocol_version(fake, client.encode())  # type: ignore[arg-type]
         passed = True
-    except ProtocolVersionError:
+    except HarnessModelError:
+        raise
+    except Exception as e:  # noqa: BLE001
+        if not _is_refusal(e):
+            return False
         passed = False
-    except Exception:  # noqa: BLE001
-        return False
     digits = "0123456789"
     canonical = len(x) >= 1 and all(ch in digits for ch in x) and (x == "0" or x[0] != "0")
     if which == 0:
@@ -379,8 +521,12 @@ def _ch(i: int) -> str:
     return _ALPHA[0]
 
 
+def _grid_abc(a: dict) -> dict:
+    return {"a": "1", "b": "2", "c": "".join(_ALPHA[a[k]] for k in ("i0", "i1", "i2"))[: a["n"]]}
+
+
 @cond(q=90, t=300, encoded=[srv.RpcServer._check_protocol_version, md.parse_version], bound="client = '1.2.' + patch, patch any string of length 0..3 over the alphabet '0139a .-' (solver case split; the gate runs concretely)",
-      replay=lambda a: _replay_real_gate({"a": "1", "b": "2", "c": "".join(_ALPHA[a[k]] for k in ("i0", "i1", "i2"))[: a["n"]]}), signature=lambda args, conc: "C09:gate:decision-differs")
+      replay=lambda a: _replay_real_gate(_grid_abc(a)), signature=lambda args, conc: _sig_real_gate(_grid_abc(args)))
 def real_gate_patch_grid(n: int, i0: int, i1: int, i2: int) -> bool:
     """
     pre: 0 <= n <= 3 and 0 <= i0 <= 7 and 0 <= i1 <= 7 and 0 <= i2 <= 7
@@ -397,9 +543,11 @@ def real_gate_patch_grid(n: int, i0: int, i1: int, i2: int) -> bool:
     try:
         srv.RpcServer._check_protocol_version(fake, ("1.2." + patch).encode())  # type: ignore[arg-type]
         passed = True
-    except ProtocolVersionError:
+    except HarnessModelError:
+        raise
+    except Exception as e:  # noqa: BLE001
+        if not _is_refusal(e):
+            return False
         passed = False
-    except Exception:  # noqa: BLE001
-        return False
     canonical = len(patch) >= 1 and all(ch in "0123456789" for ch in patch) and (len(patch) == 1 or patch[0] != "0")
     return passed == canonical
